@@ -100,7 +100,7 @@ def slice_ops(ctx, deep):
     rnd = random.Random(ctx.seed)
     lattice = [-2 ** 127, -10 ** 30, -1, 0, 1, 50, 99, 100, 101, 102, 149, 1000, 60000, 2 ** 31, 2 ** 53 - 1, 2 ** 53 + 1,
                2 ** 63, 10 ** 30, 2 ** 127 - 1]
-    mtgs = ["-", "1", "2", "29", "30", "31", "40", str(2 ** 32 - 1)]
+    mtgs = ["-", "0", "1", "2", "29", "30", "31", "40", str(2 ** 32 - 1)]
     ops = []
     for clock in lattice:
         for inc in lattice:
@@ -119,7 +119,7 @@ def slice_ops(ctx, deep):
         if rnd.random() < 0.3:
             clock = rnd.randrange(-50, 400)
         inc = rnd.choice([0, 0, rnd.randrange(-100, 5000), rnd.randrange(-2 ** mag, 2 ** mag)])
-        mtg = rnd.choice(["-", "-", str(rnd.randrange(1, 100)), str(rnd.randrange(1, 2 ** 32))])
+        mtg = rnd.choice(["-", "-", str(rnd.randrange(0, 100)), str(rnd.randrange(0, 2 ** 32)), "0"])
         col = rnd.choice("wb")
         other = rnd.randrange(-2 ** mag, 2 ** mag)
         oinc = rnd.randrange(-2 ** 20, 2 ** 20)
@@ -149,7 +149,9 @@ def check_C09(ctx, deep=False):
         ctx.traces += 1
         t = r["op"].split(" ")
         wt, bt, wi, bi = int(t[1]), int(t[2]), int(t[3]), int(t[4])
-        mtg = k["game_length"] if t[5] == "-" else int(t[5])
+        # moves to go: the number told, 30 when not told — and a told 0 reads as not told (the
+        # quotient of the property would not exist; fix e30d5a0)
+        mtg = k["game_length"] if t[5] in ("-", "0") else int(t[5])
         col = t[6]
         clock, inc = (wt, wi) if col == "w" else (bt, bi)
         if r["I"] == "panic" or not r["I"].isdigit():
@@ -190,7 +192,7 @@ def check_C09(ctx, deep=False):
         return
     # black box: measured delay
     cases = [("w", 400, 0, None), ("w", 3100, 0, None), ("b", 2100, 0, 10), ("w", 80, 0, None), ("b", 60, 500, None),
-             ("w", 1100, 0, 2), ("b", 9100, 0, None)]
+             ("w", 1100, 0, 2), ("b", 9100, 0, None), ("w", 1000, 0, 0), ("b", 3100, 0, 0)]
     if not ctx.quick:
         cases = cases * 4
     cases = [c + (None,) for c in cases]
@@ -219,7 +221,7 @@ def check_C09(ctx, deep=False):
                 else:
                     e.send("position startpos")
                 go = "go wtime %d btime %d winc %d binc %d" % ((clock, 99999, inc, 0) if col == "w" else (99999, clock, 0, inc))
-                if mtg:
+                if mtg is not None:
                     go += " movestogo %d" % mtg
                 r = S.go_and_wait(e, go, planned / 1000.0 + 10)
                 if not r["answered"]:
@@ -284,7 +286,7 @@ def check_C09(ctx, deep=False):
 
 
 def plan(k, clock, inc, mtg):
-    mtg = mtg or k["game_length"]
+    mtg = mtg or k["game_length"]          # None or 0: not told
     if clock > k["safeguard"]:
         return float(round(k["usage"] * (clock - k["safeguard"]) / mtg))
     if inc > 0:
